@@ -15,19 +15,19 @@ ROOT = os.path.dirname(os.path.dirname(os.path.abspath(__file__)))
 det = {}
 if os.path.exists(detlog):
     for line in open(detlog):
-        m = re.match(r"MUTANT (\S+)/(C\d+)/([AB])/patch.diff check=(C\d+) exit=(\d+) violations=(\d+)", line)
+        m = re.match(r"MUTANT (\S+)/(C\d+)/(\w+)/patch.diff check=(C\d+) exit=(\d+) violations=(\d+)", line)
         if m:
             det.setdefault((m.group(2), m.group(3)), {})[m.group(4)] = dict(exit=int(m.group(5)), violations=int(m.group(6)))
 kept, dropped = [], []
 for prop in sorted(os.listdir(stage)):
-    for x in "AB":
+    for x in sorted(os.listdir(os.path.join(stage, prop))):
         d = os.path.join(stage, prop, x)
-        v = os.path.join(valdir, "%s%s_%s.txt" % (tag, prop, x))
+        v = os.path.join(valdir, "%s%s_%s.txt" % (tag, prop, x[0]))
         if not os.path.isdir(d) or not os.path.exists(v):
             continue
         t = open(v).read().strip()
         ok = "applied=yes" in t and "demo_clean_exit=0" in t and "demo_mutant_exit=0" not in t and re.search(r"tests: 7666 passed", t) and " failed" not in t
-        name = "%s%s_%s" % (tag, prop, x)
+        name = "%s%s_%s" % (tag, prop, x[0])
         if not ok:
             dropped.append((name, t))
             continue
@@ -44,6 +44,9 @@ for prop in sorted(os.listdir(stage)):
                     detected_by={c: r for c, r in detections.items() if r["exit"] == 1},
                     checks_run=detections,
                     how_to_rerun="selftest/try_mutant.sh seeded/%s/patch.diff %s" % (name, " ".join(sorted(detections)) or prop))
+        notes_file = os.path.join(ROOT, "selftest", "seeded_notes.json")
+        if os.path.exists(notes_file):
+            meta["note"] = json.load(open(notes_file)).get(name, "")
         json.dump(meta, open(os.path.join(out, "meta.json"), "w"), indent=1)
         kept.append(name)
 print("kept", kept)
